@@ -133,29 +133,25 @@ def rules2(ordered):
 
 
 def config_space(tier):
-    """Deterministic list of (class, rules).  Classes in order of enumeration:
-       L0   no http_access line at all
-       L1   one rule, one literal                  (32)
-       L2   one rule, two literals                 (quick: unordered pairs 240; thorough: ordered pairs 480)
-       L11  two rules, one literal each            (1024)
-       L12  two rules, 1+2 and 2+1 literals        (thorough only: 2 x 32 x 240)
+    """Deterministic list of (class, rules), in this order (a deadline cut therefore leaves whole classes complete):
+       L0    no http_access line at all
+       L1    one rule, one literal                                  (32)
+       L2    one rule, two literals over different ACLs, or x !x    (quick: unordered pairs 240; thorough: both orders 480)
+       L11d  two single-literal rules with different actions        (512)
+       L11s  two single-literal rules with the same action          (512, thorough only)
+       L12   two rules, 1+2 literals (unordered pair)               (7680, thorough only)
+       L21   two rules, 2+1 literals (unordered pair)               (7680, thorough only)
     """
     R1 = rules1()
+    R2 = rules2(False)
     out = [('L0', [])]
     out += [('L1', [r]) for r in R1]
-    if tier == 'quick':
-        R2 = rules2(False)
-        out += [('L2', [r]) for r in R2]
-        out += [('L11', [r, s]) for r in R1 for s in R1]
-    else:
-        R2o = rules2(True)
-        R2 = rules2(False)
-        out += [('L2', [r]) for r in R2o]
-        out += [('L11', [r, s]) for r in R1 for s in R1]
-        for r in R1:
-            for s in R2:
-                out.append(('L12', [r, s]))
-                out.append(('L12', [s, r]))
+    out += [('L2', [r]) for r in (R2 if tier == 'quick' else rules2(True))]
+    out += [('L11d', [r, s]) for r in R1 for s in R1 if r[0] != s[0]]
+    if tier != 'quick':
+        out += [('L11s', [r, s]) for r in R1 for s in R1 if r[0] == s[0]]
+        out += [('L12', [r, s]) for r in R1 for s in R2]
+        out += [('L21', [s, r]) for r in R1 for s in R2]
     return out
 
 
@@ -457,7 +453,7 @@ def make_worker(ctx, det_n):
         # determinism / start-vs-reconfigure obligation: det_n configurations spread over this shard's list are first run on
         # instances started directly with them
         det = {}
-        idxs = sorted(set([0] + [(len(items) * k) // det_n for k in range(1, det_n)])) if items else []
+        idxs = sorted(set((len(items) * (2 * k + 1)) // (2 * det_n) for k in range(det_n))) if items else []
         for i in idxs:
             w0 = CWorld(ctx, shard, name='d%d' % shard)
             try:
@@ -547,7 +543,7 @@ def run(ctx):
     assert ref_allowed([('allow', ['domA', '!p1']), ('deny', ['s1'])], g) is True
     assert ref_allowed([('deny', ['domAx']), ('deny', ['dB'])], g) is False
     space = config_space(ctx.tier)
-    det_n = 2 if ctx.quick else 4
+    det_n = 1 if ctx.quick else 3
     parts = ls.run_sharded(ctx, make_worker(ctx, det_n), space)
     parts = [p for p in parts if p]
     tot = lambda k: sum(p[k] for p in parts)
@@ -582,12 +578,18 @@ def run(ctx):
     for p in parts:
         samples += p['samples'][:1]
     complete = (not deadline_hit) and configs == len(space)
+    class_total = {}
+    for c, _ in space:
+        class_total[c] = class_total.get(c, 0) + 1
+    classes_complete = [c for c in class_total if classes.get(c, 0) == class_total[c]]
     cov = {'evaluations': tot('evaluations'), 'distinct_nontrivial': tot('nontrivial'), 'rule': RULE, 'samples': samples[:6],
-           'exhaustive': complete, 'configurations': configs, 'configurations_total': len(space), 'configuration_classes': classes,
-           'subspace': ('complete: no rule; every single rule with 1 literal (32) and with 2 literals over different ACLs or x !x '
-                        '(%s); every list of 2 single-literal rules (1024)%s; each x all 36 requests' % (
-                            'unordered pairs, 240' if ctx.quick else 'ordered pairs, 480',
-                            '' if ctx.quick else '; every list of 2 rules with 1+2 or 2+1 literals (15360)')),
+           'exhaustive': complete, 'configurations': configs, 'configurations_total': len(space), 'configuration_classes_run': classes, 'configuration_classes_total': class_total,
+           'configuration_classes_complete': classes_complete,
+           'subspace': ('L0 no rule; L1 every single rule with 1 literal (16 literals x allow/deny); L2 every single rule with 2 literals '
+                        'over different ACLs or x !x (%s); L11d every list of 2 single-literal rules with different actions%s; '
+                        'each configuration x all 36 requests' % (
+                            'unordered pairs' if ctx.quick else 'both orders',
+                            '' if ctx.quick else '; L11s the same with equal actions; L12/L21 every list of 2 rules with 1+2 / 2+1 literals')),
            'requests_forwarded': tot('allowed'), 'requests_denied_403': tot('denied'), 'distinct_decision_vectors': len(vectors),
            'configs_where_implicit_default_decided': tot('default_decided'), 'instance_starts': tot('starts'),
            'reconfigurations': tot('reconfigs'), 'start_vs_reconfigure_crosschecks': tot('det_checked'), 'kicks': tot('kicks')}
